@@ -6,10 +6,26 @@ extern crate alloc;
 // `pub mod afc_inst` / `pub mod text_inst` (instrumented copies, generated) + INST_MANIFEST
 include!(concat!(env!("OUT_DIR"), "/inst_root.rs"));
 
+mod afcprops;
+mod afct;
 mod c33;
 mod c43;
 mod c44;
 mod vsched;
+
+/// AFC driver + oracle instantiated against the real crate (sequential parts).
+#[allow(dead_code, unused_imports)]
+mod real {
+    use aranya_fast_channels as afc;
+    include!("afcdrv.rs");
+}
+
+/// AFC driver + oracle instantiated against the instrumented copy (concurrent parts).
+#[allow(dead_code, unused_imports)]
+mod inst {
+    use crate::afc_inst as afc;
+    include!("afcdrv.rs");
+}
 
 #[global_allocator]
 static GLOBAL: vsched::qalloc::Quarantine = vsched::qalloc::Quarantine;
@@ -17,8 +33,10 @@ static GLOBAL: vsched::qalloc::Quarantine = vsched::qalloc::Quarantine;
 fn main() {
     let ctx = vcommon::Ctx::from_args();
     ctx.watchdog(ctx.pick(900, 7200));
+    quiet_engine_stderr(&ctx);
     match ctx.prop.as_str() {
         "C33" => c33::run(&ctx),
+        "C40" | "C41" | "C42" => afcprops::run(&ctx, &ctx.prop),
         "C43" => c43::run(&ctx),
         "C44" => c44::run(&ctx),
         p => {
@@ -40,4 +58,20 @@ pub fn engine_assumptions(rep: &mut vcommon::Report<'_>) {
         "schedules are sampled (seeded uniform-random scheduler, PCT in the thorough tier), not enumerated; \
          executions cut off by the step bound are counted as inconclusive, never as violations",
     );
+}
+
+/// shuttle prints a few lines to stderr for every failing execution (also while a failure is
+/// shrunk: thousands of times).  Outside replay mode they go to a log file in the temp dir (removed at once, the open descriptor keeps it);
+/// everything the driver reports is on stdout.
+fn quiet_engine_stderr(ctx: &vcommon::Ctx) {
+    if ctx.is_replay() || std::env::var_os("VH_KEEP_STDERR").is_some() {
+        return;
+    }
+    let path = std::env::temp_dir().join(format!("vh-sched-{}-{}.stderr.log", ctx.prop, std::process::id()));
+    if let Ok(f) = std::fs::File::create(&path) {
+        use std::os::fd::AsRawFd;
+        // SAFETY: plain dup2 of two open descriptors.
+        unsafe { libc::dup2(f.as_raw_fd(), 2) };
+        let _ = std::fs::remove_file(&path);
+    }
 }
